@@ -10,6 +10,9 @@ pub fn run<S: InterpreterTrait>(interpreter: &mut S) -> Result<(), RuntimeError>
         Err(RuntimeError::Other(
             "Invalid expression. Must be name=value.".to_string(),
         ))
+    } else if s.starts_with('=') || s.contains('\0') {
+        // the operating system does not accept an empty name or a NUL character
+        Err(RuntimeError::IllegalFunctionCall)
     } else {
         let name = parts[0].to_string();
         let value = parts[1].to_string();
